@@ -52,9 +52,10 @@ class Tok(object):
 
 
 class LexError(Exception):
-    def __init__(self, line):
+    def __init__(self, line, ntok=0):
         Exception.__init__(self, line)
         self.line = line
+        self.ntok = ntok
 
 
 def _digits(text, j, n):
@@ -89,8 +90,11 @@ def _is_letter(c):
     return ('a' <= c <= 'z') or ('A' <= c <= 'Z') or c == '_'
 
 
-def lex(text):
-    """-> (tokens incl. final eof, {line: comment text}); raises LexError(line)."""
+def lex(text, layout=None):
+    """-> (tokens incl. final eof, {line: comment text}); raises LexError(line).
+
+    If `layout` is a list it receives every token *and* ('nl' | 'comment') layout
+    items in source order, so that a text can be re-rendered after token edits."""
     toks = []
     comments = {}
     line = 1
@@ -101,6 +105,8 @@ def lex(text):
         if c == ' ' or c == '\t':
             i += 1
         elif c == '\n':
+            if layout is not None:
+                layout.append(Tok('nl', '\n', line))
             line += 1
             i += 1
         elif c == '#':
@@ -108,34 +114,46 @@ def lex(text):
             if j < 0:
                 j = n
             comments[line] = text[i + 1:j].strip()
+            if layout is not None:
+                layout.append(Tok('comment', text[i:j], line))
             i = j
         elif c == '"':
             j = i + 1
             while j < n and text[j] != '"' and text[j] != '\n':
                 j += 1
             if j >= n or text[j] != '"':
-                raise LexError(line)
+                raise LexError(line, len(toks))
             toks.append(Tok('string', text[i:j + 1], line))
+            if layout is not None:
+                layout.append(toks[-1])
             i = j + 1
         else:
             j = _scan_number(text, i, n)
             if j > i:
                 toks.append(Tok('number', text[i:j], line))
                 i = j
+                if layout is not None:
+                    layout.append(toks[-1])
             elif c == '.' and i + 1 < n and text[i + 1] == '.':
                 toks.append(Tok('dotdot', '..', line))
                 i += 2
+                if layout is not None:
+                    layout.append(toks[-1])
             elif _is_letter(c):
                 j = i + 1
                 while j < n and (_is_letter(text[j]) or ('0' <= text[j] <= '9')):
                     j += 1
                 toks.append(Tok('ident', text[i:j], line))
                 i = j
+                if layout is not None:
+                    layout.append(toks[-1])
             elif c in PUNCT:
                 toks.append(Tok(c, c, line))
                 i += 1
+                if layout is not None:
+                    layout.append(toks[-1])
             else:
-                raise LexError(line)
+                raise LexError(line, len(toks))
     toks.append(Tok('eof', '', line))
     return toks, comments
 
@@ -152,19 +170,29 @@ def lex(text):
 
 class Accept(object):
     ok = True
+    rules = ()
 
-    def __init__(self, model):
+    def __init__(self, model, ntok=0):
         self.model = model
+        self.ntok = ntok
+
+    def viable(self):
+        return True
 
 
 class Reject(object):
     ok = False
 
-    def __init__(self, lines, rules, at_eof=False, phase='parse'):
+    def __init__(self, lines, rules, at_eof=False, phase='parse', ntok=0):
         self.lines = set(lines)
         self.rules = sorted(set(rules))
         self.at_eof = at_eof
         self.phase = phase
+        self.ntok = ntok          # tokens read before the verdict
+
+    def viable(self):
+        """Can more text appended at the end still make this a valid schema?"""
+        return self.at_eof or self.phase == 'validate'
 
 
 class _Stop(Exception):
@@ -483,22 +511,12 @@ def validate(model):
                 dangling = True
     for g in groups:
         edges[g[0]] = [(m[1], m[2]) for m in g[2] if m[0] == 'use' and m[1] in G]
-    # reach[g] = set of groups reachable from g by >=1 edge (iterative closure)
-    reach = {}
-    for g in edges:
-        seen = set()
-        todo = [t for t, _ in edges[g]]
-        while todo:
-            x = todo.pop()
-            if x in seen:
-                continue
-            seen.add(x)
-            todo.extend(t for t, _ in edges[x])
-        reach[g] = seen
+    # an edge g -> t lies on a cycle iff g and t are in the same strongly connected component
+    comp = _components(edges)
     cyc_lines = set()
     for g in edges:
         for t, line in edges[g]:
-            if t == g or g in reach[t]:
+            if comp[t] == comp[g]:
                 cyc_lines.add(line)
     if cyc_lines:
         bad.append((cyc_lines, 'use-cycle'))
@@ -574,6 +592,47 @@ def validate(model):
     return bad
 
 
+def _components(edges):
+    """Strongly connected components (Kosaraju, no recursion): node -> component number."""
+    order = []
+    seen = set()
+    for root in edges:
+        if root in seen:
+            continue
+        seen.add(root)
+        stack = [(root, 0)]
+        while stack:
+            node, k = stack.pop()
+            succ = edges[node]
+            if k < len(succ):
+                stack.append((node, k + 1))
+                nxt = succ[k][0]
+                if nxt not in seen:
+                    seen.add(nxt)
+                    stack.append((nxt, 0))
+            else:
+                order.append(node)
+    back = {g: [] for g in edges}
+    for g in edges:
+        for t, _ in edges[g]:
+            back[t].append(g)
+    comp = {}
+    n = 0
+    for root in reversed(order):
+        if root in comp:
+            continue
+        comp[root] = n
+        todo = [root]
+        while todo:
+            x = todo.pop()
+            for y in back[x]:
+                if y not in comp:
+                    comp[y] = n
+                    todo.append(y)
+        n += 1
+    return comp
+
+
 def attr_faults(a, E, namespaces):
     _, name, typ, target, lo, hi, default, facets, doc, line = a
     out = []
@@ -592,8 +651,12 @@ def attr_faults(a, E, namespaces):
     for f in ('min', 'max'):
         if _has(facets, f):
             v = _facet(facets, f)
-            if not numeric or not isinstance(v, float):
-                out.append('minmax-nonnumeric')
+            if not numeric:
+                out.append('minmax-nonnumeric-type')
+            elif v is True:
+                out.append('minmax-no-value')
+            elif not isinstance(v, float):
+                out.append('minmax-nonnumeric-value')
     if _has(facets, 'min') and _has(facets, 'max'):
         mn, mx = _facet(facets, 'min'), _facet(facets, 'max')
         if isinstance(mn, float) and isinstance(mx, float) and mn > mx and numeric:
@@ -638,7 +701,7 @@ def analyse(text):
     try:
         toks, comments = lex(text)
     except LexError as e:
-        return Reject({e.line}, ['lex'], False, 'lex')
+        return Reject({e.line}, ['lex'], False, 'lex', e.ntok)
     return analyse_tokens(toks, comments)
 
 
@@ -648,16 +711,17 @@ def analyse_tokens(toks, comments):
         model = p.schema()
     except _Stop as s:
         return Reject({s.line} | {l for l, _ in p.found}, [s.rule] + [r for _, r in p.found],
-                      s.at_eof and not p.found, 'parse')
+                      s.at_eof and not p.found, 'parse', p.i)
+    n = len(toks) - 1
     if p.found:
-        return Reject({l for l, _ in p.found}, [r for _, r in p.found], False, 'parse')
+        return Reject({l for l, _ in p.found}, [r for _, r in p.found], False, 'parse', n)
     bad = validate(model)
     if bad:
         lines = set()
         for ls, _ in bad:
             lines |= ls
-        return Reject(lines, [r for _, r in bad], False, 'validate')
-    return Accept(model)
+        return Reject(lines, [r for _, r in bad], False, 'validate', n)
+    return Accept(model, n)
 
 
 # ------------------------------------------------------------------ view of the implementation's Schema
